@@ -114,6 +114,7 @@ def run(chk, repo, tier):
                 if isinstance(base, ast.Attribute) and base.attr in ('_wave', 'wave', '_value', 'value') and \
                         isinstance(base.value, ast.Name) and base.value.id in ('self', 'spectrum', 'new', 'other'):
                     writers.append((f, t))
+    spectrum_storage_rules(chk, repo, 'C15-a')
     bad = [(f, n) for f, n in writers if not (f.is_setter and f.name == 'wave' and isinstance(n, ast.Attribute))]
     chk.ob('C15-a', 'E-who-writes', SPEC, 'only the validating setter writes the grid', not bad and bool(writers),
            '; '.join(f'{f.key} at {f.loc(n)}' for f, n in bad) or f'{len(writers)} store(s), all in the setter',
@@ -423,6 +424,43 @@ def run(chk, repo, tier):
             if not oke and xa is not None and xa[0] == 'app' and str(xa[1]).startswith(('m:', 'call:', 'callv')):
                 oke, det = None, f'undecided: the edges come from a call that is not followed: {fmt(x)[:160]}'
         chk.ob('C15-f', 'N-formula', fb.key, f'trapezoid bin edges are the midpoints, ends={label}', oke, det, fb.loc())
+    # Simpson nodes: the centres interleaved with the midpoints; the end panels are half as wide - closed by the outer edge
+    # (symmetric) or by the quarter point between the end centre and the first midpoint (inside).  Reference written out and
+    # evaluated by the same interpreter.
+    from ..rules import run_snippet
+    REF = {'symmetric': 'dx = np.diff(wave)/2\nmid = wave[0:-1] + dx\nx = np.empty((wave.size + mid.size,), dtype=wave.dtype)\nx[0::2] = wave\n'
+                        'x[1::2] = mid\nx = np.concatenate([[wave[0]-dx[0]], x, [wave[-1]+dx[-1]]])\n',
+           'inside': 'dx = np.diff(wave)/2\nmid = wave[0:-1] + dx\nx = np.empty((wave.size + mid.size,), dtype=wave.dtype)\nx[0::2] = wave\n'
+                     'x[1::2] = mid\nx = np.insert(x, 1, x[0] + (x[1]-x[0])/2)\nx = np.insert(x, -1, x[-1] + (x[-2]-x[-1])/2)\n'}
+    for label, src in REF.items():
+        try:
+            cont, _, _ = run_snippet(repo, 'radiometry', src, {'wave': wv})
+            want_x = nf.unwiden(cont[0].env['x']) if cont else None
+        except Exception:
+            want_x = None
+        _, pe, _ = analyse(repo, fb, config={'interp_method': Const('simps'), 'ends': Const(label), 'preserve_power': FALSE,
+                                             'waveunit': nf.attr(SELF, 'waveunit')})
+        oke, det = None, 'undecided: nodes not evaluated'
+        for p in returns(pe):
+            smp = p.calls(f'{SPEC}.sample')
+            if len(smp) != 1 or want_x is None:
+                continue
+            x = nf.unwiden(smp[0].bound.get('wave'))
+            xa = x.single_atom() if isinstance(x, Poly) else None
+
+            def blank(v):
+                # how the node array is allocated (its size expression, its element type: clause C15-g) is not compared here
+                return nf.subst_value(v, {a: nf.app('empty') for a in nf.value_atoms(v) if is_app(a, ('empty', 'zeros'))})
+            if blank(x) == blank(want_x):
+                oke, det = True, 'nodes = reference construction'
+            elif xa is not None and xa[0] == 'app' and str(xa[1]).startswith(('m:', 'call:', 'callv')):
+                oke, det = None, f'undecided: the nodes come from a call that is not followed: {fmt(x)[:120]}'
+            elif {a[1] for a in nf.value_atoms(x) if a[0] == 'app'} <= {a[1] for a in nf.value_atoms(want_x) if a[0] == 'app'} | {'concatenate', 'insert'}:
+                # built from the same operations in another arrangement: other nodes
+                oke, det = False, f'nodes = {fmt(x)[:200]}'
+            else:
+                oke, det = None, f'undecided: nodes = {fmt(x)[:160]}'
+        chk.ob('C15-f', 'N-formula', fb.key, f'Simpson nodes: centres, midpoints and half-width end panels, ends={label}', oke, det, fb.loc())
     _, pb, _ = analyse(repo, fb, config={'interp_method': Const('trapz'), 'preserve_power': FALSE,
                                          'waveunit': nf.attr(SELF, 'waveunit')})
     okn, undn = bool(returns(pb)), False
@@ -434,6 +472,41 @@ def run(chk, repo, tier):
             okn = okn and p.ret == form[0]
     chk.ob('C15-e', 'N-identity', fb.key, 'without power preservation the quadrature values are returned as they are',
            okn if (not undn or not okn) else None, 'bins construction not recognised' if undn else '', fb.loc())
+
+
+def spectrum_storage_rules(chk, repo, clause):
+    """The arrays a Spectrum holds are never modified in place - they are the caller's own arrays (the constructor does not
+    copy) and, after `copy()`, must not be shared with the copy: editing methods rebind `wave` / `value`, and `copy` is deep.
+    (C15-a; C13-f: a mixed-unit operation converts a copy of the right operand; C14-c: `to` converts by rebinding.)"""
+    bad, n = [], 0
+    for f in repo.all_functions():
+        if f.module.name != 'radiometry':
+            continue
+        for node in ast.walk(f.node):
+            if isinstance(node, ast.AugAssign) and isinstance(node.target, ast.Attribute) and \
+                    node.target.attr in ('_wave', 'wave', '_value', 'value'):
+                n += 1
+                bad.append(f'{f.key}: `{f.module.segment(node)[:50]}` at {f.loc(node)}')
+            elif isinstance(node, ast.Call) and isinstance(node.func, ast.Attribute) and node.func.attr in (
+                    'sort', 'fill', 'resize', 'put', 'itemset', 'partition', 'clip') and isinstance(node.func.value, ast.Attribute) \
+                    and node.func.value.attr in ('_wave', 'wave', '_value', 'value') and (
+                        node.func.attr != 'clip' or any(k.arg == 'out' for k in node.keywords)):
+                n += 1
+                bad.append(f'{f.key}: `{f.module.segment(node)[:50]}` at {f.loc(node)}')
+    chk.ob(clause, 'E-who-writes', SPEC, 'the stored arrays are rebound, never operated on in place', not bad,
+           ('; '.join(bad[:3]) + ': an in-place operator works on the array the caller handed in (and on every spectrum that shares it)')
+           if bad else 'no in-place operator or mutating method on .wave / .value', '')
+    fc = repo.cls(SPEC).find_method('copy')
+    if fc is None:
+        chk.undecided(clause, 'E-ownership', SPEC + '.copy', 'deep copy', 'Spectrum has no copy method', '')
+        return
+    _, cpaths, _ = analyse(repo, fc)
+    deep = True
+    for p in returns(cpaths):
+        a = p.ret.single_atom() if isinstance(p.ret, Poly) else None
+        deep = deep and a is not None and is_app(a, 'deepcopy') and a[2][0] == SELF
+    chk.ob(clause, 'E-ownership', fc.key, 'deep copy', deep and bool(returns(cpaths)),
+           '' if deep else 'the copy shares its arrays with the original: converting or editing one changes the other', fc.loc())
 
 
 def _slices_cover(method, ops):
